@@ -123,6 +123,13 @@ func (e *Evaluator) arrayReferenceEvaluation(
 			return err
 		}
 
+		// the right-hand side may have re-typed the variable itself ("a[0] = (a = {})"):
+		// what was an array when the statement started is not one any more, and a plain
+		// element must not end up among the key-value pairs of a hash
+		if !arrayT.IsArrayType() {
+			return nil
+		}
+
 		arrayT.AppendArrayVariant(p.GetLastEvaluatedT())
 		setBindInfos(p, defineRow)
 
